@@ -381,6 +381,9 @@ func (e *Env) pkgObject(obj types.Object) SVal {
 	case *types.Var:
 		key := o.Pkg().Path() + "." + o.Name()
 		if tb, ok := e.p.tables[key]; ok {
+			if !tb.IsMap {
+				return SVal{T: tb.SliceVal(), Typ: o.Type()}
+			}
 			return SVal{T: tb.Ref, Typ: o.Type()}
 		}
 		s := sortOf(o.Type())
@@ -459,6 +462,9 @@ func (e *Env) index(x, i SVal) SVal {
 	}
 	switch u := x.Typ.Underlying().(type) {
 	case *types.Slice:
+		if tb := e.p.tableOfSlice(x.T); tb != nil {
+			return SVal{T: tb.valTerm(i.T), Typ: u.Elem()}
+		}
 		h := e.p.elemHeap(u.Elem())
 		return SVal{T: At(Select(e.cur.H(e.p, h), SBase(x.T)), SOff(x.T), i.T), Typ: u.Elem()}
 	case *types.Basic:
